@@ -1,5 +1,5 @@
 (* C01 — end-to-end transparency of the tunnel. *)
-From PV Require Import Tunnel.Pipe Tunnel.PipeProofs Tunnel.UdpMap Tunnel.UdpProofs Socks.Model Socks.Spec Socks.Proofs.
+From PV Require Import Tunnel.Pipe Tunnel.PipeProofs Tunnel.UdpMap Tunnel.UdpProofs Socks.Model Socks.Spec Socks.Proofs Bridge.Model Tunnel.BridgeRelay.
 
 (* TCP: any chain of relays (local socket, client bridge, logical stream, server bridge, target
    socket: any number of them), under any interleaving of writes, relay moves and reads:
@@ -51,3 +51,20 @@ Theorem C01_udp_reply_header_strippable : forall a port data, addr_ok a -> port 
   match a with ADom _ => False | _ => True end ->
   client_parse_udp (udp_relay_response a port data) = Some (a, port, data).
 Proof. exact udp_client_roundtrip. Qed.
+
+(* the bridge model of C13 is such a relay: on an environment of four buffers with an arbitrary
+   oracle (readiness, partial reads/writes, credit, failures), every poll that does not fail
+   forwards a prefix in each direction and passes end-of-stream on only after draining *)
+Theorem C01_bridge_is_relay : forall fuel b e b' r e' log,
+  poll penv pops fuel b e = (b', r, e', log) -> live r -> coh' b e ->
+  relay (pe_mi e) (pe_lo e) (pe_mi e') (pe_lo e') /\
+  relay (pe_li e) (pe_mo e) (pe_li e') (pe_mo e') /\
+  coh' b' e'.
+Proof. exact bridge_is_relay. Qed.
+
+Theorem C01_bridge_moves_are_pipe_moves : forall fuel b e b' r e' log,
+  poll penv pops fuel b e = (b', r, e', log) -> live r -> coh' b e -> snd (pe_mo e) = false ->
+  let k := (length (fst (pe_li e)) - length (fst (pe_li e')))%nat in
+  [pe_li e'; pe_mo e'] = move 0 k [pe_li e; pe_mo e] \/
+  [pe_li e'; pe_mo e'] = move_eof 0 (move 0 k [pe_li e; pe_mo e]).
+Proof. exact bridge_moves_are_pipe_moves. Qed.
